@@ -305,7 +305,9 @@ theorem preorder_transfer (c : Cfg) (hc : c.assertions = true) (n : Nat) (names 
   have hw : WF s := Store.wf_run (Store.wf_init n names sep) c hc ops
   have hL : L = Iter.pre (treeOf s s.n r) := by
     show (Iter.preImpl Iter.Cfg.all 1 (treeOf s s.n r)).map Tree.id = _
-    rw [C04.preorder_eq, Iter.gateL_all, List.filter_eq_self.2 (fun _ _ => rfl)]
+    rw [C04.preorder_eq, Iter.gateL_all]
+    have hf : ∀ l : List Nat, l.filter Iter.Cfg.all.filt = l := fun l => List.filter_eq_self.2 (fun _ _ => rfl)
+    rw [hf]
     simp [Iter.preL]
   refine ⟨hL, ?_, ?_, ?_, ?_⟩
   · rw [hL]; exact nodup_pre_treeOf hw s.n (Nat.le_refl _) r
